@@ -28,8 +28,8 @@ func init() {
 			}
 			return mixedCase(13, tier, seed, i)
 		},
-		NewCase:  func() any { return new(c06Case) },
-		Eval:     c13Eval,
+		NewCase: func() any { return new(c06Case) },
+		Eval:    c13Eval,
 		Minimum: func(a *fw.Agg) error {
 			if a.Counters["histories"] < 100000 || a.SetSize("types") < 25 {
 				return fmt.Errorf("too few observations: histories=%d types=%d", a.Counters["histories"], a.SetSize("types"))
